@@ -244,10 +244,39 @@ fn fidelity(case: &Case, obs: &mut Obs) -> PropResult {
 	Ok(())
 }
 
+/// the reader on large methods (tens of kilobytes, offsets near the 16-bit limits, goto_w, wide locals): the
+/// geometry models of C02 are ground truth here
+fn large(case: &crate::props::c02::GeoCase, obs: &mut Obs) -> PropResult {
+	for bump in 0..64u8 {
+		let (model, ch) = crate::props::c02::geo_model(case, bump);
+		let enc = match encode(&model, &ch) {
+			Ok(e) => e,
+			Err(EncodeError::BranchTooFar { .. }) | Err(EncodeError::CodeTooLarge(_)) => continue,
+			Err(e) => return Err(format!("harness: encoder failed: {e:?}")),
+		};
+		let expected = model.canon();
+		let got = read_and_project(&enc.bytes)?;
+		if got != expected {
+			return Err(format!("the class the reader delivers differs from the class file (large method): (file vs reader) {}", first_diff(&expected, &got)));
+		}
+		let size = enc.bytes.len();
+		obs.label(format!("template{}", case.template));
+		obs.label_if(size > 60_000, "file>60000_bytes");
+		for f in &enc.forms {
+			obs.label(format!("form:{f}"));
+		}
+		obs.nontrivial();
+		return Ok(());
+	}
+	obs.label("input_not_encodable");
+	Ok(())
+}
+
 pub fn run(ctx: &mut Ctx) {
 	ctx.rule = "class models generated from a byte stream (all opcode families, all 9 loadable constant kinds incl. nested condy, every attribute duke models plus parameter annotations and unknown attributes at all five levels, versions 45.3..67) x two independent encodings (constant pool permutation with unused/duplicate entries, attribute order, ldc/ldc_w, xload_n/xload/wide, iinc/wide iinc, goto/goto_w, switch padding, split LineNumberTable, compact/extended frames, CLDC StackMap). Oracle: projection of the tree duke reads == the generating model; both encodings read identically; the harness's strict decoder must also return the model. Non-trivial = a method with a branch/switch and a pool-referencing instruction, and at least one non-canonical encoding; distinct by hash of the serialised case".into();
 	ctx.assume("only defined access-flag bits are generated (duke models flags as named booleans)");
 	ctx.assume("annotation attributes without annotations and empty debug tables state no fact; unused constant pool / bootstrap entries are not facts");
 	ctx.assume("strings are valid Unicode (no unpaired surrogates); names are valid for duke's name types");
 	ctx.run_sub("reader_fidelity", ctx.tier.pick(6000, 120_000), strategy, fidelity);
+	ctx.run_sub("large_methods", ctx.tier.pick(300, 6000), crate::props::c02::geo_strategy, large);
 }
